@@ -338,15 +338,50 @@ class Run(object):
         return 1 if seen else 0
 
 
-def pool_map(fn, items, procs=None, chunksize=1):
+def _worker_init():
+    # a run-away execution must fail inside its own process (MemoryError) instead of being killed by the kernel,
+    # which would leave the pool waiting for ever
+    try:
+        import resource
+        lim = 8 * 1024 ** 3
+        resource.setrlimit(resource.RLIMIT_AS, (lim, lim))
+    except Exception:     # noqa
+        pass
+
+
+class _Guard(object):
+    """Turns any BaseException of a job (BudgetExceeded, SystemExit, ...) into a value: a worker must never die."""
+
+    def __init__(self, fn):
+        self.fn = fn
+
+    def __call__(self, x):
+        try:
+            return ("ok", self.fn(x))
+        except BaseException as e:      # noqa
+            return ("exc", "%s: %s\n%s" % (type(e).__name__, e, traceback.format_exc()[-1500:]))
+
+
+def pool_map(fn, items, procs=None, chunksize=1, timeout=5400):
     """Run fn over items in worker processes (fork), preserving order."""
     import multiprocessing as mp
     procs = procs or NCPU
     if procs <= 1 or len(items) <= 1:
         return [fn(x) for x in items]
     ctx = mp.get_context("fork")
-    with ctx.Pool(min(procs, len(items))) as p:
-        return p.map(fn, items, chunksize)
+    g = _Guard(fn)
+    with ctx.Pool(min(procs, len(items)), initializer=_worker_init) as p:
+        try:
+            res = p.map_async(g, items, chunksize).get(timeout=timeout)
+        except mp.TimeoutError:
+            p.terminate()
+            raise MachineryError("worker pool did not finish within %d s" % timeout)
+    out = []
+    for k, (st, v) in enumerate(res):
+        if st != "ok":
+            raise MachineryError("job %d raised in its worker: %s" % (k, v))
+        out.append(v)
+    return out
 
 
 def main(argv=None):
